@@ -2,13 +2,17 @@
 SPEC = {
     "bins": [
         {"name": "c07", "pkg": "./zz_verif/c07", "run": ".", "shards": {"quick": 1, "thorough": 16}},
+        # a reduced grid (KEMs built on circl's own X25519 / X448 / Kyber arithmetic) on the other arithmetic back-ends
+        {"name": "c07alt", "pkg": "./zz_verif/c07", "run": "^TestC07Alt$",
+         "configs": [c for c in CPU_OFF if c["name"] != "default"], "quick_configs": ["purego", "alloff"], "shards": {"quick": 1, "thorough": 1}},
     ],
     "rule": "case = (KEM, KDF, AEAD, mode, ikmR, ikmS, ikmE, info, psk, psk_id, messages, exports, negative relation) drawn by rapid per KEM, "
             "plus one (thorough: four) deterministic pseudo-random case for each of the 252 KEM x KDF x AEAD x mode cells, plus the PSK-input table "
             "{nil, empty, non-empty}^2 x {PSK, AuthPSK} x {sender, receiver} and the re-used-object rows, plus the official vectors replayed on circl, "
             "plus sequences of 2..5 Setup* calls on one Sender and one Receiver object (drawn, and all 16 ordered pairs of modes per KEM), plus single-bit flips of one honest enc per KEM "
             "(all bits for P-256/384/521/X25519 and in the thorough tier; edges + the raw X25519 share + a sample otherwise); the encapsulation randomness is handed to Setup through "
-            "readers that return whole, one-byte, half and random-chunk reads. "
+            "readers that return whole, one-byte, half and random-chunk reads; in three quarters of the re-use sequences all []byte arguments live in one caller arena that is overwritten in place between calls; "
+            "a reduced grid (X25519, X448, both hybrids, P-256) also runs on the purego build and with cpu.avx2/bmi2/adx switched off (quick: purego and all-off). "
             "non-trivial = the case's mode is not base, or it is a negative relation (receiver differing in exactly one of skR/info/psk/psk_id/mode/pkS), "
             "or an asserted row of the PSK table, or an official vector, or a re-use sequence with two different modes, or an altered enc; distinct by FNV-64 of (sub-check, suite, mode, all inputs, relation)",
     "assumptions": COMMON_ASSUME + [
